@@ -46,7 +46,7 @@ theorem C17_isar_limited (n t sz : String) :
 /-- patch `dynamic` binds the array to an EARLIER size field and drops its size: `T x<@len>` -/
 theorem C17_patch_dynamic (c m : PM) (hne : m.name ≠ c.name) :
     applyAction [c, m] (.dynamic m.name c.name)
-      = .ok [c, { m with bound := some c.name, size := none, optional := false }] := by
+      = .ok [c, { m with bound := some c.name, size := none, greedy := false, optional := false }] := by
   have h1 : (c.name == m.name) = false := by simp [beq_eq_false_iff_ne]; exact fun h => hne h.symm
   simp [applyAction, findIdx, modifyAt, List.findIdx?_cons, h1, List.mapIdx_cons]
 
@@ -57,7 +57,7 @@ theorem C17_patch_dynamic_needs_sizer (m : PM) (l : String) :
 
 /-- `static` makes the field a fixed array of the given (symbolic or positive) size: `T x[N]` -/
 theorem C17_patch_static (m : PM) (s : String) (h : nonPositiveInt s = false) :
-    applyAction [m] (.static m.name s) = .ok [{ m with bound := none, size := some s, optional := false }] := by
+    applyAction [m] (.static m.name s) = .ok [{ m with bound := none, size := some s, greedy := false, optional := false }] := by
   simp [applyAction, findIdx, modifyAt, List.findIdx?_cons, List.mapIdx_cons, h]
 
 /-- and a non-positive size cannot be applied -/
@@ -81,6 +81,33 @@ theorem C17_patch_missing_member_fails (ms : List PM) (n x : String) (h : findId
     ∧ applyAction ms (.remove n) = .error .memberNotFound ∧ applyAction ms (.type n x) = .error .memberNotFound
     ∧ applyAction ms (.rename n x) = .error .memberNotFound := by
   simp [applyAction, h]
+
+/-- a once-greedy member made static or dynamic again is an ordinary array: nothing of `greedy` is left (defect D69) -/
+theorem C17_patch_greedy_then_static (m : PM) (s : String) (h : nonPositiveInt s = false) :
+    applyAll [m] [.greedy m.name, .static m.name s] = .ok (prophyFixed m.name m.type s) := by
+  simp [applyAll, applyAction, findIdx, modifyAt, prophyFixed, List.findIdx?_cons, List.mapIdx_cons, h]
+
+/-- whatever a script of rules leaves has no two members of one name (defect D94) -/
+theorem C17_patched_names_unique (ms ms' : List PM) (a : Action) (as : List Action)
+    (h : applyRules ms (a :: as) = .ok ms') : uniqNames ms' = true := by
+  unfold applyRules at h
+  split at h
+  · rename_i r hr
+    simp only [List.isEmpty_cons, Bool.false_or] at h
+    split at h
+    · rename_i hu
+      injection h with h
+      subst h
+      exact hu
+    · cases h
+  · cases h
+
+/-- the product of two isar dimensions is the product of the two expressions (defect D67) -/
+theorem C17_isar_size2_parenthesised (n t : String) :
+    isarMembers n t false (some { size := some "K+1", size2 := some "2" }) false = prophyFixed n t "(K+1)*2" := by
+  have h1 : factor "K+1" = "(K+1)" := by decide
+  have h2 : factor "2" = "2" := by decide
+  simp [isarMembers, isarMembers.body, prophyFixed, h1, h2]
 
 /-- a failing rule fails the whole script -/
 theorem C17_patch_script_fails_on_first_error (ms : List PM) (a : Action) (r : List Action) (e : PErr)
